@@ -1,8 +1,8 @@
 (* C12  Aggregation and disaggregation respect calendar membership, are consistent.
    Regular frequencies (serial = year*freq + segment - 1); restatements only. *)
 From Coq Require Import ZArith List Bool Reals.
-From Verif Require Import lib.Arith lib.ArithOptZ model.Series model.SeriesOps model.Convert
-     proofs.SeriesProofs proofs.ConvertProofs.
+From Verif Require Import lib.Arith lib.ArithOptZ lib.Calendar model.Series model.SeriesOps model.Convert model.ConvertDaily
+     proofs.SeriesProofs proofs.ConvertProofs proofs.ConvertDailyProofs.
 Import ListNotations.
 Open Scope Z_scope.
 
@@ -91,3 +91,101 @@ Example C12_roundtrip_hypotheses_satisfiable :
               aggregate_regular OZArith X AggFirst None false 4 d = Ok r /\
               s_start r = Some 8080 /\ s_data r = [[Some 3]; [None]; [Some 5]].
 Proof. eexists. eexists. repeat split; reflexivity. Qed.
+
+(* ================= DAILY source / target (proleptic Gregorian calendar of lib/Calendar.v) ================= *)
+
+(* day n belongs to period t of a regular frequency f (refrequent: year*f + (month-1)//(12//f)) exactly when it lies
+   between the first day of the first month and the last day of the last month of t: month lengths and leap years
+   (4/100/400 rule) are those of the calendar; all integers n, t *)
+Theorem C12_daily_membership : forall f n t, reg_freq f = true ->
+  (low_of_day f n = t <-> day_start f t <= n <= day_end f t).
+Proof. exact daily_membership. Qed.
+Print Assumptions C12_daily_membership.
+
+(* consecutive periods tile the days: no day is lost or counted twice at month ends, 28/29 February and year ends *)
+Theorem C12_daily_tiling : forall f t, reg_freq f = true ->
+  day_start f t + 27 <= day_end f t /\ day_end f t + 1 = day_start f (t + 1).
+Proof. intros f t R. exact (conj (day_start_le_end f t R) (daily_tiling f t R)). Qed.
+Print Assumptions C12_daily_tiling.
+
+(* the group aggregated into l consists of the rows of exactly the days belonging to l, in calendar order *)
+Theorem C12_daily_group_rows_are_the_days : forall A (s : series A) f l, reg_freq f = true ->
+  forall n, low_of_day f n = l <->
+            exists j, (j < length (day_rows A s f l))%nat /\ n = day_start f l + Z.of_nat j /\
+                      nth j (day_rows A s f l) (missrow A (s_nv s)) = row_at A s n.
+Proof. exact day_rows_members. Qed.
+Print Assumptions C12_daily_group_rows_are_the_days.
+
+(* aggregate daily -> regular applies the method (after select / discard_missing) to exactly that group *)
+Theorem C12_aggregate_daily_applies_method_to_its_days : forall A, lawful A -> forall (X : ArithExt A) m sel disc f_tgt
+    (s r : series A) st en l,
+  WF A s -> s_start s = Some st -> s_end A s = Some en ->
+  aggregate_daily A X m sel disc f_tgt s = Ok r ->
+  row_at A r l =
+    if (year_of_ord st * f_tgt <=? l) && (l <=? (year_of_ord en + 1) * f_tgt - 1)
+    then agg_row A X m sel disc (s_nv s) (day_rows A s f_tgt l)
+    else missrow A (s_nv s).
+Proof. exact aggregate_daily_spec. Qed.
+Print Assumptions C12_aggregate_daily_applies_method_to_its_days.
+
+(* disaggregate regular -> daily: flat fills every day of the period containing it; first / middle / last write the
+   value of l at exactly its first day / its first day + (number of its days)//2 / its last day, nothing elsewhere *)
+Theorem C12_disaggregate_daily_placement : forall A, lawful A -> forall d (s r : series A) st en h,
+  WF A s -> s_start s = Some st -> s_end A s = Some en ->
+  disaggregate_daily A d s = Ok r ->
+  row_at A r h =
+    if (day_start (s_freq s) st <=? h) && (h <=? day_end (s_freq s) en)
+    then (let l := low_of_day (s_freq s) h in
+          if match d with
+             | DisFlat => true
+             | DisFirst => h =? day_start (s_freq s) l
+             | DisMiddle => h =? day_start (s_freq s) l + ndays (s_freq s) l / 2
+             | DisLast => h =? day_end (s_freq s) l
+             end
+          then row_at A s l else missrow A (s_nv s))
+    else missrow A (s_nv s).
+Proof. exact disaggregate_daily_spec. Qed.
+Print Assumptions C12_disaggregate_daily_placement.
+
+(* aggregate(first | last | min | max) of disaggregate(flat) through DAILY is the original map *)
+Theorem C12_roundtrip_flat_daily_first_last_min_max : forall A, lawful A -> forall (X : ArithExt A) m (s d r : series A),
+  (m = AggFirst \/ m = AggLast \/ m = AggMin \/ m = AggMax) ->
+  WF A s -> reg_freq (s_freq s) = true ->
+  disaggregate_daily A DisFlat s = Ok d ->
+  aggregate_daily A X m None false (s_freq s) d = Ok r ->
+  forall l, row_at A r l = row_at A s l.
+Proof.
+  intros A HA X m s d r Hm. apply roundtrip_flat_daily; [exact HA|].
+  destruct Hm as [->|[->|[->| ->]]]; [apply first_idem|apply last_idem|apply min_idem|apply max_idem].
+Qed.
+Print Assumptions C12_roundtrip_flat_daily_first_last_min_max.
+
+(* ... and with mean over the reals (every period length 28..366 days) *)
+Theorem C12_roundtrip_flat_daily_mean : forall (X : ArithExt RArith) (s d r : series RArith),
+  WF RArith s -> reg_freq (s_freq s) = true ->
+  disaggregate_daily RArith DisFlat s = Ok d ->
+  aggregate_daily RArith X AggMean None false (s_freq s) d = Ok r ->
+  forall l, row_at RArith r l = row_at RArith s l.
+Proof.
+  intros X s d r. apply roundtrip_flat_daily; [intros x H; discriminate H|apply mean_idem].
+Qed.
+Print Assumptions C12_roundtrip_flat_daily_mean.
+
+(* non-vacuity: 2000M02 (29 days, leap February) .. 2000M04 to daily and back; the hypotheses of the round trip hold *)
+Example C12_daily_roundtrip_hypotheses_satisfiable :
+  let s := mkSeries (A:=OZArith) 12 (Some 24001) 1 [[Some 3]; [None]; [Some 5]] in
+  let X := mkExt OZArith (fun x => x) (fun x => x) (fun _ _ => false) (fun _ _ => false) in
+  match disaggregate_daily OZArith DisFlat s with
+  | Ok d => s_start d = Some (ord_of_ymd 2000 2 1) /\ length (s_data d) = 90%nat /\
+            match aggregate_daily OZArith X AggLast None false 12 d with
+            | Ok r => s_start r = Some 24001 /\ s_data r = [[Some 3]; [None]; [Some 5]]
+            | Err _ => False
+            end
+  | Err _ => False
+  end.
+Proof. vm_compute. repeat split; reflexivity. Qed.
+
+Example C12_daily_membership_leap_day :
+  low_of_day 4 (ord_of_ymd 2000 2 29) = 8000 /\ low_of_day 12 (ord_of_ymd 2000 2 29) = 24001 /\
+  ndays 12 24001 = 29 /\ ndays 12 (1900 * 12 + 1) = 28 /\ ndays 4 8000 = 91 /\ ndays 1 2000 = 366 /\ ndays 2 4001 = 184.
+Proof. vm_compute. repeat split; reflexivity. Qed.
